@@ -439,6 +439,130 @@ class Emit:
             raise Unsupported("imperative body without a value")
         return "(" + self.imp(list(stmts), self.e(tail)) + ")"
 
+    # ---- bodies with early returns and `get_mut` borrows: continuation-passing translation
+    # K maps the Lean text of the value a path yields to the Lean text of the function's result on that path (the
+    # mutable places are read by name when K is applied: `let` shadowing keeps their names stable).
+    def has_return(self, x):
+        if isinstance(x, tuple):
+            if x and x[0] == "return":
+                return True
+            if x and x[0] == "try":
+                return True
+            if x and x[0] == "closure":
+                return False
+            return any(self.has_return(y) for y in x)
+        if isinstance(x, list):
+            return any(self.has_return(y) for y in x)
+        return False
+
+    def getmut(self, e):
+        """`V.get_mut(&k)` on a map place of the configuration (optionally `.unwrap()`): (V, key text, unwrapped)"""
+        unw = False
+        if e[0] == "mcall" and e[2] in ("unwrap", "expect"):
+            e, unw = e[1], True
+        if e[0] == "mcall" and e[2] == "get_mut" and len(e[3]) == 1 and self.lhs_name(e[1]) is not None:
+            return self.lhs_name(e[1]), self.atom(e[3][0]), unw
+        return None
+
+    def wb(self, names, borrows):
+        return "".join("let %s := (mapSet %s %s %s);\n    " % (borrows[v][0], borrows[v][0], borrows[v][1], v) for v in names if v in borrows and borrows[v][0] != "__opt__")
+
+    def cps(self, stmts, tail, K, borrows, optb):
+        if not stmts:
+            return self.cps_tail(tail, K, borrows, optb)
+        s, rest = stmts[0], stmts[1:]
+        cont = lambda b=borrows, o=optb: self.cps(rest, tail, K, b, o)
+        if s[0] == "let":
+            pat, e = s[1], s[2]
+            gm = self.getmut(e)
+            if gm and pat[0] == "pvar":
+                V, k, unw = gm
+                x = ident(pat[1])
+                if unw:      # a borrow of the entry that lives on: written through after every change
+                    return "let %s := (mapGetD %s %s);\n    %s" % (x, V, k, cont(dict(borrows, **{x: (V, k)})))
+                return cont(borrows, dict(optb, **{pat[1]: (V, k)}))          # an optional borrow, matched later
+            if e[0] == "mcall" and e[2] in self.cfg.get("effcalls", {}) and pat[0] == "pvar":
+                tmpl, muts = self.cfg["effcalls"][e[2]]
+                args = [self.atom(e[1])] + [self.atom(a) for a in e[3]]
+                return "let (%s) := (%s);\n    %s%s" % (", ".join([ident(pat[1])] + muts), tmpl.format(*args), self.wb(muts, borrows), cont())
+            if e[0] == "mcall" and e[2] == "clone" and self.lhs_name(e[1]) is not None and pat[0] == "pvar":
+                return "let %s := %s;\n    %s" % (ident(pat[1]), self.lhs_name(e[1]), cont())
+            return "let %s := %s;\n    %s" % (self.pat(pat), self.e(e), cont())
+        x = s[1]
+        if x[0] == "macro" and x[1] in ("assert", "debug_assert", "assert_eq"):
+            return cont()
+        if x[0] == "return":
+            return self.cfg["ret"].format(self.e(x[1]))
+        if x[0] == "try" and rest and rest[0][0] == "expr" and rest[0][1][0] == "macro" and rest[0][1][1] == "unreachable":
+            # `res?; unreachable!()` under `if res.is_err()`: the function returns `res`
+            return self.cfg["ret"].format(self.cfg.get("errcast", "{0}").format(self.e(x[1])))
+        if x[0] in ("if", "iflet", "match") and (self.has_return(x) or self.uses_borrow(x, optb)):
+            return self.cps_branch(x, lambda blk, b2, K2=None: self.cps(self.as_stmts(blk) + rest if blk is not None else rest, tail, K, b2, optb), borrows, optb, wrapK=False)
+        w = self.assigned([s])
+        return self.imp([s], self.wb(w, borrows) + cont())
+
+    def uses_borrow(self, x, optb):
+        sc = x[2] if x[0] == "iflet" else x[1]
+        return self.getmut(sc) is not None or (sc[0] == "path" and len(sc[1]) == 1 and sc[1][0] in optb) or self.dotted(sc) in self.cfg.get("optplaces", {}) \
+            or (sc[0] == "mcall" and not sc[3] and self.dotted(sc) in self.cfg.get("optplaces", {}))
+
+    def scrut(self, sc, optb):
+        """scrutinee text and, when it is a mutable borrow of a map entry / of an optional place, how to write it back"""
+        gm = self.getmut(sc)
+        if gm:
+            return "(mapGet %s %s)" % (gm[0], gm[1]), ("map", gm[0], gm[1])
+        if sc[0] == "path" and len(sc[1]) == 1 and sc[1][0] in optb:
+            V, k = optb[sc[1][0]]
+            return "(mapGet %s %s)" % (V, k), ("map", V, k)
+        d = self.dotted(sc)
+        if d in self.cfg.get("optplaces", {}):
+            return self.cfg["optplaces"][d], ("opt", self.cfg["optplaces"][d])
+        return self.e(sc), None
+
+    def cps_branch(self, x, go, borrows, optb, wrapK):
+        """an `if` / `if let` / `match` whose branches are continued by `go(block, borrows)`"""
+        if x[0] == "if":
+            return "(if %s then (%s) else (%s))" % (self.e(x[1]), go(x[2], borrows), go(x[3], borrows))
+        arms = [(x[1], x[3]), (("pwild",), x[4])] if x[0] == "iflet" else list(x[2])
+        sc, back = self.scrut(x[2] if x[0] == "iflet" else x[1], optb)
+        out = []
+        for pat, blk in arms:
+            b2 = borrows
+            if back and pat[0] == "pctor" and pat[1][-1] == "Some" and pat[2] and pat[2][0][0] == "pvar":
+                y = ident(pat[2][0][1])
+                b2 = dict(borrows, **{y: (back[1], back[2])}) if back[0] == "map" else dict(borrows, **{y: ("__opt__", back[1])})
+            out.append("\n    | %s => (%s)" % (self.pat(pat), go(blk, b2)))
+        return "(match %s with%s)" % (sc, "".join(out))
+
+    def cps_tail(self, tail, K, borrows, optb):
+        if tail is None:
+            return self.final(K, "()", borrows)
+        if tail[0] == "block":
+            return self.cps(list(tail[1]), tail[2], K, borrows, optb)
+        if tail[0] in ("if", "iflet", "match"):
+            def go(blk, b2):
+                if blk is None:
+                    return self.final(K, "()", b2)
+                if blk[0] != "block":
+                    return self.cps_tail(blk, K, b2, optb)
+                return self.cps(list(blk[1]), blk[2], K, b2, optb)
+            return self.cps_branch(tail, go, borrows, optb, wrapK=True)
+        if tail[0] == "return":
+            return self.cfg["ret"].format(self.e(tail[1]))
+        return self.final(K, self.e(tail), borrows)
+
+    def final(self, K, v, borrows):
+        """the value of a path: borrows that are still open are written back first (entries of maps, then optional places)"""
+        pre = "let __v := %s;\n    " % v                  # (entries of maps are written through after every change already)
+        for y, (V, k) in borrows.items():
+            if V == "__opt__":
+                pre += "let %s := (some %s);\n    " % (k, y)
+        return pre + K("__v")
+
+    def cpsfn(self, body):
+        _, stmts, tail = body
+        return "(" + self.cps(list(stmts), tail, lambda v: self.cfg["ret"].format(v), {}, {}) + ")"
+
     def dotted(self, x):
         if x[0] == "path" and len(x[1]) == 1:
             return x[1][0]
@@ -619,6 +743,15 @@ LOGIC = [
          method={"epoch_db": "epochs", "max_idle_epochs": "maxIdle", "get": "lookupEpoch {0} {1}", "unwrap_or": "Option.getD {0} {1}"},
          call={"Ok": "{0}"}, path={"TrackStatus::Wasted": "Status.wasted", "TrackStatus::Pending": "Status.pending",
                                     "TrackStatus::Ready": "Status.ready"}),
+    dict(group="EpochDb", name="epoch_skip", file="trackers/epoch_db.rs", impl=r"trait EpochDb[^{]*\{", fn="skip_epochs_for_scene", cps=True, imperative=True,
+         sig="(epoch_db : Option (List (Nat × Nat))) (scene_id n : Nat) : Unit × Option (List (Nat × Nat))", ret="({0}, epoch_db)",
+         optplaces={"self.epoch_db()": "epoch_db"}, method={"write": "{0}", "unwrap": "{0}"}, mutmethods={"insert": "mapSet {0} {1} {2}"}),
+    dict(group="EpochDb", name="epoch_current", file="trackers/epoch_db.rs", impl=r"trait EpochDb[^{]*\{", fn="current_epoch_with_scene", cps=True, imperative=True,
+         sig="(epoch_db : Option (List (Nat × Nat))) (scene_id : Nat) : Option Nat × Option (List (Nat × Nat))", ret="({0}, epoch_db)",
+         optplaces={"self.epoch_db()": "epoch_db"}, method={"write": "{0}", "unwrap": "{0}"}, mutmethods={"insert": "mapSet {0} {1} {2}"}),
+    dict(group="EpochDb", name="epoch_next", file="trackers/epoch_db.rs", impl=r"trait EpochDb[^{]*\{", fn="next_epoch", cps=True, imperative=True,
+         sig="(epoch_db : Option (List (Nat × Nat))) (scene_id : Nat) : Option Nat × Option (List (Nat × Nat))", ret="({0}, epoch_db)",
+         optplaces={"self.epoch_db()": "epoch_db"}, method={"write": "{0}", "unwrap": "{0}"}, mutmethods={"insert": "mapSet {0} {1} {2}"}),
     dict(group="Constr", name="constraints_validate", file="trackers/spatio_temporal_constraints.rs", impl=r"impl SpatioTemporalConstraints \{", fn="validate",
          sig="(constraints : List (Nat × Rat)) (epoch_delta : Nat) (dist : Rat) : Bool",
          field={"self.constraints": "constraints"}),
@@ -719,7 +852,7 @@ def gen(repo, cfgs, header, footer):
                 if not sel:
                     raise Unsupported("the statements to translate were not found")
                 body = ("block", sel, None)
-            lean = Emit(c).imperative(body) if c.get("imperative") else Emit(c).block(body)
+            lean = Emit(c).cpsfn(body) if c.get("cps") else Emit(c).imperative(body) if c.get("imperative") else Emit(c).block(body)
             out.append("/-- src/%s `%s` -/\ndef %s %s :=\n  %s\n" % (c["file"], c["fn"], c["name"], c["sig"], lean))
         except (Unsupported, OSError, KeyError, IndexError, ValueError) as ex:
             unread.append((c["name"], str(ex)))
@@ -767,6 +900,13 @@ def msum {ι κ : Type} [Fintype ι] [Fintype κ] (a : Matrix ι κ α) : α := 
 """
 PRELUDE_BASE = """/-- `f32::partial_cmp(..).unwrap()` on comparable (non-NaN) values -/
 def cmpQ (a b : Rat) : Ordering := if a < b then .lt else if b < a then .gt else .eq
+"""
+PRELUDE_MAP = """/-- `HashMap<u64, V>` read as an association list with distinct keys: `get`, and `insert` / write-back through `get_mut` -/
+def mapGet {β : Type} (m : List (Nat × β)) (k : Nat) : Option β := (m.find? (fun p => p.1 == k)).map (·.2)
+def mapGetD {β : Type} [Inhabited β] (m : List (Nat × β)) (k : Nat) : β := (mapGet m k).getD default
+def mapSet {β : Type} : List (Nat × β) → Nat → β → List (Nat × β)
+  | [], k, v => [(k, v)]
+  | p :: rest, k, v => if p.1 == k then (k, v) :: rest else p :: mapSet rest k v
 """
 PRELUDE_SWAP = """/-- `slice::swap(i, j)` (indices in range: the code pushes an element first) -/
 def listSwap {α : Type} (l : List α) (i j : Nat) : List α :=
@@ -820,6 +960,7 @@ def main():
     jobs.append(("KKalmanMat.lean", KALMAN_MAT, HEADER_K % "import SimVerif.Gen.KKalman\nimport Mathlib.Data.Matrix.Mul\nimport Mathlib.Data.Matrix.Diagonal\nimport Mathlib.Data.Fintype.Sum\n" + PRELUDE_MAT, "SimVerif.Gen.K"))
     jobs.append(("KKalmanVec.lean", KALMAN_VEC, "/- GENERATED by translator/kernels.py from /repo/src on every run — do not edit. `Vec2DKalmanFilter`: the point filter applied element by element. -/\nnamespace SimVerif.Gen.K\n", "SimVerif.Gen.K"))
     jobs.append(("LEpoch.lean", [c for c in LOGIC if c["group"] == "Epoch"], HEADER_L + PRELUDE_EPOCH, "SimVerif.Gen.L"))
+    jobs.append(("LEpochDb.lean", [c for c in LOGIC if c["group"] == "EpochDb"], HEADER_L + PRELUDE_MAP, "SimVerif.Gen.L"))
     jobs.append(("LConstr.lean", [c for c in LOGIC if c["group"] == "Constr"], HEADER_L + PRELUDE_DEDUP, "SimVerif.Gen.L"))
     jobs.append(("LBase.lean", [], HEADER_L + PRELUDE_BASE, "SimVerif.Gen.L"))
     jobs.append(("LGallery.lean", [c for c in LOGIC if c["group"] == "Gallery"], "import SimVerif.Gen.LBase\n" + HEADER_L + PRELUDE_SWAP, "SimVerif.Gen.L"))
